@@ -9,8 +9,11 @@ import csv
 import datetime as _dt
 import io
 import os
+import json
 import random
 import shutil
+import subprocess
+import sys
 import tempfile
 
 from .. import gen, observe, probes
@@ -21,14 +24,20 @@ ID = "C20"
 TITLE = "text-oriented writers"
 LEVEL = "exploration"
 RULE = (
-    "cases = seeded recipes of four kinds: csv / line / text = a sequence of 1-10 records alternating between 1-3 types "
+    "cases = seeded recipes of six kinds: csv / line / text = a sequence of 1-10 records alternating between 1-3 types "
     "(all serialisable field types, pool values; text-like cells biased to delimiters, quotes, CR, LF, CRLF, tab, NUL, "
     "unicode, surrogate-escaped bytes, leading/trailing blanks; timestamps at the year limits with offsets; grouped "
     "records) written by the real writer under options fields / exclude (lists, comma strings, URI query; unknown, "
     "repeated and metadata names) x lineterminator {default,\\n,\\r\\n,\\r} x verbose x format templates (known and "
     "unknown keys, conversions, format specs, escaped braces, expression fields (attribute / index access, nested format specs, conversions on them, on unknown keys too), the documented \\t \\n \\r escapes mixed with other backslash sequences, a trailing backslash and non-ASCII / surrogate-escaped literal text, given as keyword argument or text://...?format_spec= query); csvread = a CSV file (harness-written with delimiter "
     ", ; TAB | x terminator, or written by CsvfileWriter) with safe cells read through RecordReader('csvfile://').  "
-    "Non-trivial = at least one record rendered / read; distinct = distinct (kind, option set, type shapes, sub-seed).  "
+    "gmutwrite = a grouped record written through the csv / line / text(+template) "
+    "writer, a member changed DIRECTLY (assignment, get_record_by_type, in place on a held list, metadata), the same group written again "
+    "through the same writer (each rendering must show the members' values at that time); tzdisplay = a worker process per display "
+    "configuration (FLOW_RECORD_TZ=NONE, several zones, unset) rendering timestamps of the SAME instant with DIFFERENT offsets one after "
+    "the other through str/repr/format and the csv, line, text writers against the stdlib reference isoformat(' ') resp. "
+    "astimezone(zone).isoformat(' ').  filesize values cover every magnitude class int(log(|x|,10.24)) = 12..19, positive and negative, "
+    "scalar, filesize[] and nested.  Non-trivial = at least one record rendered / read; distinct = distinct (kind, option set, type shapes, sub-seed).  "
     "Oracle: written bytes decoded with surrogateescape; CSV parsed by csv.reader (excel dialect) == header row per run "
     "of one type + one row of str(value) cells (None -> empty) per record; line output matched block by block "
     "('--[ RECORD n ]--', one right-aligned 'name = value' line per selected field, verbose adds ' (type)'); text "
@@ -37,7 +46,7 @@ RULE = (
     "records read back from CSV carry the cells' text."
 )
 ASSUMPTIONS = [
-    "the text form of a value is Python's str(value) (repr / format(value, spec) in text output): value-level rendering is shared with the implementation, layout is modelled independently; display-timezone independence is C13's",
+    "in the tzdisplay worker the text form of a timestamp is checked against an independent stdlib reference (its own stored wall clock and offset under FLOW_RECORD_TZ=NONE, the instant in the display zone otherwise); everywhere else the text form of a value is Python's str(value) (repr / format(value, spec) in text output): value-level rendering is shared with the implementation, layout is modelled independently; display-timezone independence is C13's",
     "the process encoding is UTF-8 (the CSV writer opens its file with the locale encoding)",
     "the column / line order of a grouped record's flat view is not pinned (compared as a mapping); for plain records the order is the descriptor's or the fields option's",
     "field names equal to GroupedRecord's own attributes (name, records, ...) are not generated here (C15 known finding)",
@@ -63,7 +72,13 @@ ANCHORS = [
 ]
 KEY_BARE_NL = "csv-bare-newline-custom-terminator"
 
-KINDS = [("csv", 38), ("line", 24), ("text", 24), ("csvread", 14)]
+KINDS = [("csv", 35), ("line", 22), ("text", 23), ("csvread", 12), ("gmutwrite", 8)]
+TZ_ZONES = ["Europe/Amsterdam", "America/New_York", "Asia/Kathmandu", "Australia/Lord_Howe", "UTC"]
+WORKER_TIMEOUT_S = 120
+VERIF_DIR = os.path.dirname(os.path.dirname(os.path.dirname(os.path.abspath(__file__))))
+# filesize magnitudes int(log(|x|, 10.24)) = 12 .. 19 (the unit table of the human readable form ends there)
+FILESIZE_EDGES = [2**40, 10**13, 2**44, 10**14, 2**47, 2**50, 10**15, 2**53, 10**16, 10**17, 2**57, 2**57 - 1, 149657767662684500, 149657767662684600, 2**58, 2**59, 2**60,
+                  10**18, 2**61, 2**62, 2**63, 2**64, 10**20, 1, 1023, 1024, 10**6]
 NAMES = ["a", "b", "s", "v", "x1", "value", "path", "cmd", "ts", "id", "class", "Zq", "data", "n_1", "quite_a_long_field_name"]
 TEXTY = ("string", "wstring", "uri")
 HOSTILE_TEXT = [
@@ -101,7 +116,11 @@ def generate(ctx):
     rng = random.Random(subseed("c20", "plan", ctx.seed, ctx.shard))
     kinds = [k for k, _ in KINDS]
     weights = [w for _, w in KINDS]
+    tz_plan = ["NONE", rng.choice(TZ_ZONES), "NONE"] if ctx.quick else ["NONE", "NONE", None, "NONE"] + rng.sample(TZ_ZONES, 3) + ["NONE"]
+    every = max(1, total // len(tz_plan))
     for i in range(total):
+        if i % every == 0 and tz_plan:
+            yield {"k": "tzdisplay", "tz": tz_plan.pop(0), "n": ctx.scale(25, 60), "s": subseed("c20", ctx.seed, ctx.shard, "tz", i)}
         kind = rng.choices(kinds, weights)[0]
         yield {"k": kind, "s": subseed("c20", ctx.seed, ctx.shard, kind, i)}
 
@@ -133,7 +152,7 @@ class Maker:
             elif r < 0.35:
                 t = rng.choice(TEXTY)
             elif r < 0.5:
-                t = rng.choice(["datetime", "path", "bytes", "varint", "float", "string[]", "command", "digest"])
+                t = rng.choice(["datetime", "path", "bytes", "varint", "float", "string[]", "command", "digest", "filesize", "filesize", "filesize[]", "record"])
             else:
                 t = rng.choice(gen.ALL_FIELD_TYPES)
             fields.append((t, fn))
@@ -148,6 +167,17 @@ class Maker:
             return self.hostile_text()
         if ftype == "string[]" and rng.random() < 0.4:
             return [self.hostile_text() for _ in range(rng.randint(0, 3))]
+        if ftype == "filesize" and rng.random() < 0.6:
+            return rng.choice(FILESIZE_EDGES) * rng.choice([1, 1, -1])
+        if ftype == "filesize[]" and rng.random() < 0.6:
+            return [rng.choice(FILESIZE_EDGES) * rng.choice([1, 1, -1]) for _ in range(rng.randint(1, 4))]
+        if ftype in ("record", "record[]") and rng.random() < 0.35:
+            from flow.record import RecordDescriptor
+
+            nested = RecordDescriptor("nested/sizes", [("filesize", "size"), ("filesize[]", "sizes")])
+            one = lambda: nested.recordType(size=rng.choice(FILESIZE_EDGES) * rng.choice([1, -1]),  # noqa: E731
+                                            sizes=[rng.choice(FILESIZE_EDGES) for _ in range(rng.randint(0, 2))])
+            return one() if ftype == "record" else [one() for _ in range(rng.randint(1, 2))]
         if ftype == "datetime" and rng.random() < 0.2:
             return rng.choice(EDGE_DATETIMES)
         if ftype == "datetime[]" and rng.random() < 0.2:
@@ -303,7 +333,19 @@ def write_all(ctx, rng, scheme, path, opts, records, what):
         return None, how
 
 
+def note_filesizes(ctx, records):
+    import math
+
+    from flow.record import fieldtypes
+
+    for r in records:
+        for v in deep_values(r):
+            if isinstance(v, fieldtypes.filesize) and int(v) != 0:
+                ctx.cell("filesize-magnitude", min(int(math.log(abs(int(v)), 10.24)), 20), "neg" if int(v) < 0 else "pos")
+
+
 def note_types(ctx, records):
+    note_filesizes(ctx, records)
     for r in records:
         members = r.records if hasattr(r, "descriptors") else [r]
         ctx.event("grouped_records_rendered" if hasattr(r, "descriptors") else "plain_records_rendered")
@@ -361,7 +403,7 @@ def classify_value_failure(rec, exc):
             try:
                 repr(v)
             except Exception as e:  # noqa: BLE001
-                if type(e) is type(exc):
+                if isinstance(e, UnboundLocalError) and isinstance(exc, UnboundLocalError):
                     return KEY_FILESIZE
     return None
 
@@ -868,7 +910,186 @@ def do_csvread(ctx, case, mk):
     ctx.sample({"kind": "csvread", "source": source, "delimiter": delim, "text": text[:200], "records": describe(got, 2)}, kind="csvread:%s:%s" % (source, delim))
 
 
-DISPATCH = {"csv": do_csv, "line": do_line, "text": do_text, "csvread": do_csvread}
+# ---- a grouped record rendered, a member changed directly, rendered again ------------------------------
+def do_gmutwrite(ctx, case, mk):
+    from flow.record import GroupedRecord
+
+    rng = mk.rng
+    descs = [mk.descriptor() for _ in range(rng.choice([1, 2, 2, 3]))]
+    members = [mk.record(d) for d in descs]
+    g = GroupedRecord("g/x", members)
+    scheme = rng.choice(["csvfile", "line", "line", "text", "text"])
+    names0, values0, types0, _ = tm.slots_and_values(g)
+    opts = {}
+    template = None
+    if scheme == "text" and rng.random() < 0.6:
+        template = "|".join("{%s}" % n for n in rng.sample(names0, min(len(names0), rng.randint(1, 4)))) + "|{nope}"
+        opts["format_spec"] = template
+    if scheme == "line" and rng.random() < 0.5:
+        opts["verbose"] = True
+    if scheme != "text":
+        opts["fields"] = mk.name_list([g])
+        opts["exclude"] = mk.name_list([g])
+    ctx.ev()
+
+    def snapshot():
+        names, values, types, _ = tm.slots_and_values(g)
+        if scheme == "text":
+            return repr(g) if template is None else tm.apply_template(template, values)
+        sel = tm.select(names, opts.get("fields"), opts.get("exclude"))
+        if scheme == "csvfile":
+            return (sel, [tm.cell_text(values[n]) for n in sel])
+        return [("%s (%s)" % (n, types[n]) if opts.get("verbose") else n, str(values[n])) for n in sel]
+
+    def mutate():
+        done = []
+        for _ in range(rng.choice([1, 2, 3])):
+            m = rng.choice(members)
+            firsts = [x for x in members if any(next(y for y in members if n in y.__slots__) is x for n in x.__slots__)]
+            if firsts and rng.random() < 0.8:
+                m = rng.choice(firsts)
+            cand = [n for n in m.__slots__ if n != "_version" and next(y for y in members if n in y.__slots__) is m] or ["_source"]
+            n = rng.choice(cand)
+            if n == "_generated":
+                v = _dt.datetime(2031, 2, 3, 4, 5, 6, rng.randint(0, 999999), tzinfo=_dt.timezone.utc)
+            elif n in ("_source", "_classification"):
+                v = rng.choice(["changed", "Δ", "x,y"])
+            else:
+                v = None
+                for _ in range(5):
+                    v = getattr(mk.record(m._desc), n)
+                    try:
+                        if str(v) != str(getattr(m, n)):
+                            break
+                    except Exception:  # noqa: BLE001
+                        break
+            how = rng.choice(["member", "by_type", "inplace"])
+            cur = getattr(m, n)
+            if how == "inplace" and isinstance(cur, list) and not n.startswith("_") and m._desc.fields[n].typename.endswith("[]"):
+                if cur and rng.random() < 0.5:
+                    cur.pop()
+                else:
+                    cur.extend(list(v or []))
+                done.append("members[%d].%s changed in place" % (members.index(m), n))
+            elif how == "by_type":
+                target = g.get_record_by_type(m._desc.name)
+                setattr(target if target is not None and target._desc is m._desc else m, n, v)
+                done.append("get_record_by_type(...).%s = ..." % n)
+            else:
+                setattr(m, n, v)
+                done.append("members[%d].%s = ..." % (members.index(m), n))
+        return done
+
+    expected = []
+    how = {"options": {k: v for k, v in opts.items() if v is not None}, "scheme": scheme}
+    try:
+        from flow.record import RecordWriter
+
+        path = new_path(ctx, "out")
+        w = RecordWriter("%s://%s" % (scheme, path), **{k: v for k, v in opts.items() if v is not None})
+        try:
+            expected.append(snapshot())
+            w.write(g)
+            changes = mutate()
+            expected.append(snapshot())
+            w.write(g)
+            if rng.random() < 0.5:
+                changes += mutate()
+                expected.append(snapshot())
+                w.write(g)
+            w.flush()
+        finally:
+            w.close()
+        with open(path, "rb") as f:
+            text = f.read().decode("utf-8", "surrogateescape")
+        os.unlink(path)
+    except tm.Undefined:
+        ctx.event("gmutwrite_undefined_skipped")
+        return
+    except Exception as e:  # noqa: BLE001
+        key = classify_value_failure(g, e)
+        ctx.violation(key, "the text form (str/repr) of a valid value raises, so the text writers cannot render the record" if key else
+                      "%s writer raised %s for a valid record" % (scheme, type(e).__name__), detail=dict(how, exception=repr(e)[:300], members=describe(members)))
+        return
+    how["member_changes"] = changes
+    detail = dict(how, members=describe(members), text=text[:500])
+    note_types(ctx, [g])
+    if scheme == "text":
+        exp_text = "".join(e + "\n" for e in expected)
+        ok = text == exp_text
+        if not ok:
+            ctx.violation(None, "text output of a grouped record written again after a member changed does not show the members' current values",
+                          detail=dict(detail, expected=exp_text[:500]))
+    elif scheme == "csvfile":
+        exp = [(expected[0][0], "header", False, expected[0][0])] + [(cells, "row", False, sel) for sel, cells in expected]
+        try:
+            got = tm.std_parse(text)
+        except csv.Error as e:
+            got = None
+            detail["parser_error"] = repr(e)
+        why = "not parsable" if got is None else compare_rows(got, exp)
+        ok = why is None
+        if not ok:
+            ctx.violation(None, "csv output of a grouped record written again after a member changed does not show the members' current values",
+                          detail=dict(detail, why=why))
+    else:
+        pos, ok = 0, True
+        for i, items in enumerate(expected):
+            pos, why = tm.match_line_block(text, pos, i + 1, items, False)
+            if why:
+                ctx.violation(None, "line output of a grouped record written again after a member changed does not show the members' current values",
+                              detail=dict(detail, block=i + 1, why=why))
+                ok = False
+                break
+        ok = ok and pos == len(text)
+    if ok:
+        ctx.event("gmutwrite_rerendered_ok")
+        ctx.event("gmutwrite_writes_checked", len(expected))
+    ctx.cell("gmutwrite", scheme, "template" if template else "-", "members=%d" % len(members))
+    ctx.nontrivial("gmutwrite", scheme, [type_key(m) for m in members], changes, case["s"])
+    ctx.sample({"kind": "gmutwrite", "scheme": scheme, "changes": changes, "text": text[:300]}, kind="gmutwrite:" + scheme)
+
+
+# ---- display configuration in a worker process ------------------------------------------------------------
+def do_tzdisplay(ctx, case, mk):
+    """FLOW_RECORD_TZ is read at import time: run verif.worker_c20 under the requested setting (see its docstring)."""
+    env = dict(os.environ)
+    env.pop("FLOW_RECORD_TZ", None)
+    if case.get("tz") is not None:
+        env["FLOW_RECORD_TZ"] = case["tz"]
+    pp = env.get("PYTHONPATH", "")
+    if VERIF_DIR not in pp.split(os.pathsep):
+        env["PYTHONPATH"] = VERIF_DIR + (os.pathsep + pp if pp else "")
+    env.setdefault("PYTHONHASHSEED", "0")
+    wd = tempfile.mkdtemp(prefix="tz-", dir=ctx.state["tmp"])
+    ctx.ev()
+    try:
+        p = subprocess.run([sys.executable, "-W", "ignore", "-m", "verif.worker_c20", str(case["s"]), str(case.get("n", 25)), wd], env=env,
+                           cwd=VERIF_DIR, capture_output=True, text=True, timeout=WORKER_TIMEOUT_S)
+    except subprocess.TimeoutExpired:
+        ctx.require(False, "a C20 display-configuration worker exceeded its %d s watchdog" % WORKER_TIMEOUT_S)
+        return
+    finally:
+        shutil.rmtree(wd, ignore_errors=True)
+    line = next((ln for ln in p.stdout.splitlines() if ln.startswith("C20WORKER ")), None)
+    if p.returncode != 0 or line is None:
+        ctx.violation(None, "rendering timestamps under FLOW_RECORD_TZ=%s failed (worker exit %s)" % (case.get("tz"), p.returncode),
+                      detail={"stderr": p.stderr[-2500:], "stdout": p.stdout[-500:]})
+        return
+    out = json.loads(line[len("C20WORKER "):])
+    if out["env"] != case.get("tz"):
+        ctx.require(False, "FLOW_RECORD_TZ was not propagated to the worker: wanted %r got %r" % (case.get("tz"), out["env"]))
+        return
+    ctx.event("tz_workers_run")
+    for k, v in out["events"].items():
+        ctx.event("tz:" + k, v)
+    for v in out["violations"]:
+        ctx.violation(None, "FLOW_RECORD_TZ=%s: %s" % ("NONE" if case.get("tz") == "NONE" else "<zone>", v["msg"]), detail=dict(v["detail"], FLOW_RECORD_TZ=case.get("tz")))
+    ctx.cell("tzdisplay", str(case.get("tz")))
+    ctx.nontrivial("tzdisplay", case.get("tz"), case["s"])
+
+
+DISPATCH = {"csv": do_csv, "line": do_line, "text": do_text, "csvread": do_csvread, "gmutwrite": do_gmutwrite, "tzdisplay": do_tzdisplay}
 
 
 def execute(ctx, case):
@@ -885,7 +1106,11 @@ def finish(ctx):
     ctx.require(ctx.state["encoding"].lower().replace("-", "") == "utf8", "the process encoding is not UTF-8: CSV output cannot be decoded as assumed")
     for q in ANCHORS:
         ctx.require(ctx.reach.get(q, 0) > 0, "anchor %s was never entered" % q)
-    for ev in ("csv_rows_checked", "csv_type_changes", "line_field_lines_matched", "text_records_matched", "text_repr_fields_checked",
+    if ctx.events.get("kind:tzdisplay", 0):
+        for ev in ("tz:NONE_direct_renderings_checked", "tz:NONE_equal_instants_with_different_offsets", "tz:NONE_csv_rows_checked",
+                   "tz:NONE_line_blocks_checked", "tz:NONE_text_template_records_checked", "tz:zone_direct_renderings_checked"):
+            ctx.require(ctx.events.get(ev, 0) > 0, "display-configuration monitor %s never ran" % ev)
+    for ev in ("gmutwrite_rerendered_ok", "csv_rows_checked", "csv_type_changes", "line_field_lines_matched", "text_records_matched", "text_repr_fields_checked",
                "text_template_unknown_keys", "text_template_escapes_translated", "text_template_backslashes_kept_literal",
                "text_templates_with_escape_and_nonascii", "text_expression_templates_matched", "text_template_attribute_accesses",
                "text_template_index_accesses", "text_template_nested_specs", "csvread_cells_checked", "cell:surrogate", "cell:quote", "cell:comma", "cell:cr", "cell:lf"):
